@@ -57,7 +57,8 @@ def one_case(rep, cs, seed, i):
     fac = poly if op == "differentiate" else emb
     valid = rng.random() < 0.5
     vs = gen.VAR_SETS[rng.choice(["dense", "sparse"])](rng.choice([1, 2, 3]))
-    a = random_dag(rng, vs, rng.randint(1, 6), K=1, bias_valid=0.97 if valid else 0.4, input_factory=fac)
+    a = random_dag(rng, vs, rng.randint(1, 6), K=1, bias_valid=0.97 if valid else 0.4, input_factory=fac,
+                   consts=op in ("integrate", "multiply", "evidence"))   # no conjugation / differentiation rule exists for constant layers
     if a is None:
         return
     sm, de = spec_preds(a)
@@ -65,6 +66,8 @@ def one_case(rep, cs, seed, i):
     rep.count("op:" + op)
     rep.count(f"operand smooth={int(sm)} dec={int(de)}")
     scope = sorted(a.scope._set)
+    if not scope:
+        return      # a circuit of constants only: no variable to integrate / observe
     ex = export.Exporter()
     term, impl = None, None
     if op == "integrate":
